@@ -111,12 +111,21 @@ def cmp_validate(ctx, drv, ref_mb, tgt_mb, data, metric, family="validate"):
         rr = ("raise", type(e).__name__)
     for sig, samples in data.items():
         smp_json = []
+        f32_overflow = set()
         ins = outs = None
         sgi = 0
         for smp in samples:
             sgi, rc, ins, outs = capture(ref_mb, sig, smp)
             _, tc, _, _ = capture(tgt_mb, sig, smp)
             smp_json.append({"ref": [tdata_json(n, a, td) for n, a, td in rc], "target": [tdata_json(n, a, td) for n, a, td in tc]})
+            # tensors on which the documented formula, evaluated in float32 as numpy does, overflows to +inf (contents near the float32 maximum)
+            tm_ = {n: (a, td) for n, a, td in tc}
+            for n, a, td in rc:
+                if n in tm_:
+                    with np.errstate(all="ignore"):
+                        v32 = _metric(metric, _deq(*tm_[n]).astype(np.float32), _deq(a, td).astype(np.float32))
+                    if not math.isfinite(v32):
+                        f32_overflow.add(n)
         rq = {"op": "validate", "metric": "mse" if metric == "mse" else "mdr", "samples": smp_json, "inputs": ins, "outputs": outs,
               "constants": const_names(ref_mb, sgi)}
         m = drv.ask(rq)
@@ -146,7 +155,7 @@ def cmp_validate(ctx, drv, ref_mb, tgt_mb, data, metric, family="validate"):
                 break
             # numpy evaluates the metric in float32: a squared difference above 3.4e38 overflows to +inf where the model's ideal
             # arithmetic yields a huge finite mean (tensors have far fewer than 1e8 elements, so a mean below 1e30 cannot overflow)
-            overflow = lambda k: float(got[grp][k]) == math.inf and float(mg[k]) >= 1e30  # noqa: E731  (mse: squares; mdr: ratios)
+            overflow = lambda k: float(got[grp][k]) == math.inf and (float(mg[k]) >= 1e30 or k in f32_overflow)  # noqa: E731
             if any(overflow(k) for k in mg):
                 ctx.tag("metric_float32_overflow")
             bad = [k for k in mg if not close(float(got[grp][k]), mg[k]) and not overflow(k)]
@@ -166,6 +175,7 @@ def oracle(ctx, ref_mb, tgt_mb, data, metric, real, fail, self_compare=False):
             dup = sorted({n for n in allnames if allnames.count(n) > 1})
             return fail(f"tensor filed in more than one group: {dup[:3]}", "dup-entry")
         per = {}
+        overflow32 = set()
         common_names = None
         for smp in samples:
             sgi, rc, ins, outs = capture(ref_mb, sig, smp)
@@ -179,6 +189,12 @@ def oracle(ctx, ref_mb, tgt_mb, data, metric, real, fail, self_compare=False):
                 x = _deq(a, td)
                 y = _deq(*tmap[n])
                 per.setdefault(n, []).append(_metric(metric, y, x))
+                # the same documented formula evaluated in float32 (what numpy does on float32 tensors): values near the float32 maximum make
+                # differences, squares or ratios overflow to +inf where the exact value is finite -- such an inf is arithmetic, not a defect
+                with np.errstate(all="ignore"):
+                    v32 = _metric(metric, y.astype(np.float32), x.astype(np.float32))
+                if not math.isfinite(v32):
+                    overflow32.add(n)
             common_names = names
         if sorted(set(common_names)) != sorted(allnames):
             missing = sorted(set(common_names) - set(allnames))[:3]
@@ -197,7 +213,8 @@ def oracle(ctx, ref_mb, tgt_mb, data, metric, real, fail, self_compare=False):
             if not math.isfinite(got):
                 # the library evaluates in float32: only a mean of squares beyond ~1e30 can overflow; anything else non-finite is not a metric value
                 # (median_diff_ratio divides by |ref| + 1e-6: a ratio beyond 3.4e38 overflows in float32 just the same)
-                if got == math.inf and want >= 1e30:
+                if got == math.inf and (want >= 1e30 or n in overflow32):
+                    ctx.tag("metric_float32_overflow_in_oracle")
                     continue
                 return fail(f"value reported for {n} is {got} (the documented metric of the sanitised contents is {want})", "value-nonfinite")
             if got < 0:
